@@ -21,6 +21,7 @@ META = {
                     "the malformed frame is line noise: the valid tail is numbered from the receiver's expected MsgSeqNum"],
 }
 REQUIRED_ORACLES = ["decode-total", "accepted-frame-is-valid", "repeated-decode", "live-reader"]
+REQUIRED_COUNTERS = ["early_trailer_shapes_behind_junk", "single_byte_mutations", "live_cases_where_every_following_frame_must_be_processed"]
 NSHARDS = 16
 
 
